@@ -545,6 +545,15 @@ def run_check(mod, tier, seed, replay=None):
             stepf = len(gen) / float(cap)
             gen = [gen[int(i * stepf)] for i in range(cap)]
             hist["widened_sample_of_thorough"] = cap
+        if search_tier != tier:
+            # a widened run never explores less than the plain run of its tier: the tier's own stream (with its
+            # one-of-a-kind cases, which an even sample of the thorough stream would drop) comes first, whole
+            mod.WIDENED = False
+            own = list(mod.generate(tier, Rng(seed), {}))
+            mod.WIDENED = (not broken_obligations)
+            seen_own = set(own)
+            gen = own + [g for g in gen if g not in seen_own]
+            hist["widened_plus_own_stream"] = len(own)
         lines += gen
     results = run_cases(prop, lines, limit_ms=getattr(mod, "LIMIT_MS", 10000))
 
